@@ -146,19 +146,21 @@ fn corpus_sweep(profile: corpus::Profile, n: usize, sh: &util::Shard) -> Report 
 pub fn arg_pool(quick: bool) -> Vec<&'static str> {
     let mut v = vec![
         "null", "true", "0", "-0", "1", "-1", "0.5", "2", "3", "-2.5", "65535", "65536", "2147483648", "9007199254740993", "1e300", "-1e300", "5e-324", "1.7976931348623157e308",
-        "\"\"", "\"a\"", "\"ab,c\"", "\"é😀\"", "\"%s %d\"", "\"1234567890123456789012345678901é\"", "\"{\\\"a\\\": [1]}\"", "\" \\t\\n\"",
+        "\"\"", "\"a\"", "\"ab,c\"", "\"é😀\"", "\"%s %d\"", "\"%.3s|%5.1f|%c|%(k)s|%*d\"", "\"1234567890123456789012345678901é\"", "\"{\\\"a\\\": [1]}\"", "\" \\t\\n\"",
         "[]", "[1, 2, 3]", "[\"a\", \"b\"]", "[[1], [2, [3]]]", "[1, \"a\", null]", "[error \"lazy element\"]",
         "{}", "{a: 1, b: \"x\"}", "{a: {b: [1]}, h:: 2}", "{assert false, a: 1}",
-        "function(x) x", "function(x, y) x", "function() 1", "std.length",
+        "function(x) x", "function(x, y) x", "function() 1", "function(x, y=x) y", "std.length", "std.pow", "std.substr",
     ];
     if quick {
-        v = v.into_iter().enumerate().filter(|(i, _)| i % 2 == 0 || [4usize, 13, 23, 31, 35].contains(i)).map(|(_, x)| x).collect();
+        // every kind stays represented; function values are never dropped (arity mismatches
+        // between a builtin and the function handed to it are a panic source of their own)
+        v = v.into_iter().enumerate().filter(|(i, x)| i % 2 == 0 || x.contains("function") || x.starts_with("std.") || [4usize, 13, 23, 31, 35].contains(i)).map(|(_, x)| x).collect();
     }
     v
 }
 
 fn small_pool() -> Vec<&'static str> {
-    vec!["null", "0", "-1", "2", "0.5", "1e300", "\"\"", "\"ab,c\"", "\"é😀\"", "[]", "[1, \"a\", null]", "{a: 1, b: \"x\"}", "function(x) x", "function(x, y) x"]
+    vec!["null", "0", "-1", "2", "0.5", "1e300", "\"\"", "\"ab,c\"", "\"é😀\"", "[]", "[1, \"a\", null]", "{a: 1, b: \"x\"}", "function(x) x", "function(x, y) x", "std.length", "std.pow"]
 }
 
 pub fn std_functions() -> Vec<(String, usize)> {
